@@ -165,3 +165,51 @@ Example c01_example_process :
   map cell_text (p_cells (prun W e1 [PNew (IObj 1); PNew (IObj 2); PMutate e2; PUpdate 1%nat; PNew (IObj 1)]))
   = [[69]; [115]; [101]].
 Proof. vm_compute. reflexivity. Qed.
+
+(* AT TABLE LEVEL, WITH ITEMS THAT CHANGE (Model/TableMut.v: the whole-table
+   machine over cells that remember the state their item was in when they last
+   read it; a program is any list of building calls, column settings,
+   in-place mutations of objects, and Update() calls on cells reached through
+   CellAt / Headers). *)
+From Tab Require Import Model.TableMut Proofs.TableMutProofs.
+
+(* "re-reads a mutated item only when asked to update", for every cell of every
+   table at once: a mutation changes nothing that any cell has cached (texts,
+   emptiness, widths, heights; counts and column properties with them), so no
+   renderer shows it through text *)
+Theorem c01_table_mutation_not_seen : forall W json st id ob,
+  view_cached (mview W json (mstep st (MMutate id ob))) = view_cached (mview W json st).
+Proof. exact mutate_not_seen. Qed.
+Print Assumptions c01_table_mutation_not_seen.
+
+(* ... and Update on the cell at (r, c) makes exactly that cell show the
+   documented text of its item's present state; every other cell of the row,
+   every other row, the header and the counts are what they were *)
+Theorem c01_table_update_shows : forall W json st r c tr cs x,
+  nth_error (t_rows (tb_core (m_tab st))) r = Some tr -> r_body tr = RCells cs -> nth_error cs c = Some x ->
+  let v' := mview W json (mstep st (MUpdateAt r c)) in
+  exists vcs,
+    nth_error (v_rows v') r = Some (Some vcs)
+    /\ option_map vc_text (nth_error vcs c) = Some (documented_text (m_env st) (fst (c_item x)))
+    /\ (forall c', c' <> c ->
+          nth_error vcs c' = option_map (fun y => snap_vcell W json (m_env st) (c_item y)) (nth_error cs c'))
+    /\ (forall r', r' <> r -> nth_error (v_rows v') r' = nth_error (v_rows (mview W json st)) r')
+    /\ v_header v' = v_header (mview W json st) /\ v_ncols v' = v_ncols (mview W json st).
+Proof. exact update_shows. Qed.
+Print Assumptions c01_table_update_shows.
+
+(* a program that never mutates nor updates shows the view of the end-to-end
+   theorems *)
+Theorem c01_mutation_free_is_hview : forall W e json (h : list top),
+  mview W json (mrun e (map MOp h)) = hview W e json h.
+Proof. exact mutation_free_is_hview. Qed.
+Print Assumptions c01_mutation_free_is_hview.
+
+(* whatever the program did, CSV (and with c01_shown_by_every_renderer's
+   companions every other format) shows each cell's text as of its last read *)
+Theorem c01_csv_after_any_program : forall W json st out,
+  Csv.csv_render (mview W json st) = Ok out ->
+  CsvParse.parse_csv out
+  = Some (map (CsvParse.pad_to (t_ncols (tb_core (m_tab st)))) (map (map snap_doc) (state_records st))).
+Proof. exact csv_after_any_program. Qed.
+Print Assumptions c01_csv_after_any_program.
